@@ -166,13 +166,21 @@ func capAlpha(as []methods.Alphabet, n int) []methods.Alphabet {
 	return out
 }
 
-const pairCap = 24
+// pairCap limits each alphabet for the 2-field deviations: 24 values in the
+// quick tier, 64 in the thorough tier (only the exhaustive mask alphabets
+// are longer than that).
+func (r *runner) pairCap() int {
+	if r.ctx.Quick() {
+		return 24
+	}
+	return 64
+}
 
 // enumerate yields the deviation sets of a space: defaults, all single
 // deviations over the full alphabets, pairs over the capped alphabets.
 func (r *runner) enumerate(alpha []methods.Alphabet, ok func(i, j int) bool, yield func(devs []methods.Dev)) {
 	methods.EnumDevs(alpha, false, false, nil, yield)
-	methods.EnumDevs(capAlpha(alpha, pairCap), true, !r.ctx.Quick(), ok, func(devs []methods.Dev) {
+	methods.EnumDevs(capAlpha(alpha, r.pairCap()), true, !r.ctx.Quick(), ok, func(devs []methods.Dev) {
 		if len(devs) == 2 {
 			yield(devs)
 		}
@@ -277,6 +285,13 @@ func (r *runner) partRT() {
 		alpha := make([]methods.Alphabet, len(fields))
 		for i, f := range fields {
 			alpha[i] = r.rtAlphabet(t, f)
+			if len(alpha[i].Vals) == 0 {
+				// vacuity guard: every field of every type must deviate
+				r.rep.NotExhaustive(fmt.Sprintf("field %s of %s has an empty alphabet", f.name, name))
+			}
+			if r.ctx.Shard == 0 && r.replay == nil {
+				r.rep.Count("fields_of_all_types", 1)
+			}
 		}
 		r.enumerate(alpha, nil, func(devs []methods.Dev) {
 			if !r.mine("rt", name, 0, devs, "") {
